@@ -2,7 +2,7 @@
 import json, os
 
 from . import extract
-from .rules import lock7, seq, mutex, ptr, lockword, qsbr, enc, exc, acc, cfgdiff, enum1, iterrules, prefix, point, find
+from .rules import lock7, seq, mutex, ptr, lockword, qsbr, enc, exc, acc, cfgdiff, enum1, iterrules, prefix, point, find, slot
 from . import olcrules
 
 VERIF = os.path.dirname(os.path.dirname(os.path.abspath(__file__)))
@@ -90,7 +90,7 @@ SCAN = 'olc_db iterator and scan functions and everything they call'
 PROPERTIES['C01'] = {
     'level': 'other',
     'configs': two,
-    'rules': [R(point.noeff1), R(point.keyeq1), R(point.leaf1), R(point.leaf2), R(point.leaf3), R(point.root1), R(point.split1), R(point.pair1), R(point.copy1), R(point.desc1), R(find.find1), R(find.ord1), R(prefix.pfx1), R(prefix.pfx2),
+    'rules': [R(point.noeff1), R(point.keyeq1), R(point.leaf1), R(point.leaf2), R(point.leaf3), R(point.root1), R(point.split1), R(point.pair1), R(point.copy1), R(point.desc1), R(find.find1), R(find.ord1), R(slot.slot1), R(prefix.pfx1), R(prefix.pfx2),
               R(lambda cfg: iterrules.sib1_point(cfg, accounting=False)), R(lambda cfg: olcrules.lock6(cfg, kinds=('leaf',)))],
     'technique': 'static analysis: path-sensitive effect flow with callee summaries (result/effect correlation), control-dependence rules (full-key comparison guards), writer/reader expression agreement, abstract interpretation of the node search and key-prefix arithmetic in byte-vector / lane-wise three-valued domains with exhaustively enumerated lengths and counts, sibling differencing db vs olc_db',
     'explanation': 'The local generators of "point operations behave as a map", decided on the clang-instantiated code of all three index classes and both key kinds; the behaviour over all histories is NOT decided (see does_not_decide). '
@@ -98,21 +98,21 @@ PROPERTIES['C01'] = {
                    'KEYEQ-1 every "key present" decision (value returned by get, duplicate rejected by insert, leaf unlinked by remove and by the remove helpers of every node class) is control-dependent on a full comparison of the reached leaf\'s key with the operation\'s own key. '
                    'LEAF-1 the leaf constructor copies key and value to exactly the ranges the getters read, sized from its arguments, and the allocation is sized from the same numbers; LEAF-2 leaves are immutable after construction (const fields, const methods, no write through `data` elsewhere); LEAF-3 no cast drops const from byte / leaf pointers (positive control in the analysis unit) - so an existing entry and any value view onto it cannot change while the leaf exists; '
                    'LOCK-6 (leaf sites only) leaves of the OLC index are freed only through QSBR (view valid until the next quiescent state). ROOT-1 empty() is "root is null" and clear() stores null into the root on every path. '
-                   'FIND-1 find_child of each node class returns exactly the child stored for the key byte: I4 / I16 by lane-wise three-valued evaluation of the SSE search with child count and match position enumerated and stale slots free, I48 / I256 by term comparison; ORD-1 the dense classes insert at the rank of the new key byte (sortedness preserved); PAIR-1 every function of the dense classes writes the key array and the child array in lock-step (same target and source slots), so slot i of one always describes slot i of the other. '
+                   'FIND-1 find_child of each node class returns exactly the child stored for the key byte: I4 / I16 by lane-wise three-valued evaluation of the SSE search with child count and match position enumerated and stale slots free, I48 / I256 by term comparison; SLOT-1 I48 files a new child in the first null slot of its pointer array (lane-wise evaluation of the SSE4.2 / AVX2 / scalar search, first null slot enumerated 0..47); ORD-1 the dense classes insert at the rank of the new key byte (sortedness preserved); PAIR-1 every function of the dense classes writes the key array and the child array in lock-step (same target and source slots), so slot i of one always describes slot i of the other. '
                    'DESC-1 the descent of get / insert / remove / seek compares each node prefix with the shifted working copy of the key, shifts it by the prefix length, selects the child by its first byte and shifts by one, in this order, the tracked depth moving in step; COPY-1 the grow / shrink initialisers walk the slot arrays of their source node from slot 0 to the array size; '
                    'SPLIT-1 node splits dispatch on the bytes at the split position (leaf split: k1[depth+L] / shifted_k2[L]; prefix split: prefix[len] read before the cut by len+1, key[depth+len]); CAP-1 / CAP-2 the interval obligations "longest common prefix of two distinct keys <= key_prefix_capacity" at the leaf split and "merged prefix <= capacity" at the collapse hold for 64-bit keys and FAIL for byte-string keys - two genuine defects of the pinned tree, listed in known_findings.json and printed as KNOWN-FINDING (replays triage/d1_long_prefix.cpp, triage/d1b_collapse_overflow.cpp). '
                    'PFX-1 key_prefix::cut / prepend are the specified byte permutations for every combination of lengths and every content of the stale bytes; PFX-2 shared_len is min(first differing byte, clamp). '
                    'SIB-1p db and olc_db take the same algorithmic decisions (child lookup, prefix comparison, key shifts, leaf match, node creation by class, helper calls; statistics events projected away - they are C10) on every path of get / insert / remove and of the add / remove helpers of every node class.',
     'decides': 'result/effect correlation; full-key-comparison guards; leaf layout agreement and immutability; per-node lookup, insert position and slot pairing; split dispatch bytes; key-prefix arithmetic; db/olc_db algorithm agreement',
-    'does_not_decide': 'the map behaviour as a theorem over all operation histories and key sets (that needs an inductive tree invariant - functional verification, outside static analysis); the iterator-style copy loops of the I4-from-I16 shrink beyond PAIR-1, the I48 free-slot search (SIMD)',
+    'does_not_decide': 'the map behaviour as a theorem over all operation histories and key sets (that needs an inductive tree invariant - functional verification, outside static analysis); the iterator-style copy loops of the I4-from-I16 shrink beyond PAIR-1',
 }
 PROPERTIES['C02'] = {
     'level': 'other',
     'configs': two,
-    'rules': [R(seq.cmp1), R(seq.iter1), R(enum1.enum1), R(iterrules.iter2), R(iterrules.iter3), R(iterrules.iter4), R(iterrules.iter5), R(iterrules.sib1)],
+    'rules': [R(seq.cmp1), R(enc.cmp_shape), R(seq.cmp3), R(seq.iter1), R(enum1.enum1), R(iterrules.iter2), R(iterrules.iter3), R(iterrules.iter4), R(iterrules.iter5), R(iterrules.sib1)],
     'technique': 'static analysis: forward dataflow over event-CFGs (comparator operands, sibling-step consistency), scan-descriptor extraction per node-class enumeration method compared with a semantics table, must-pass-through rule for the fall-off branch of seek, path-class differencing of the db and olc_db iterators',
     'explanation': 'Static necessary conditions of "scans visit exactly the interval, in order", decided on the clang-instantiated code of db, mutex_db and olc_db for both key kinds: '
-                   'CMP-1 every byte comparator is applied to key bytes, never to the object representation of a pointer-carrying object; '
+                   'CMP-1 every byte comparator is applied to key bytes, never to the object representation of a pointer-carrying object; CMP-2 detail::compare is memcmp over the common length, then shorter-first on a tie (evaluated for all sign / length cases); CMP-3 every three-way key comparison (art_key / leaf / iterator cmp) takes its result from the byte-wise comparator or another cmp, never from relational operators on the byte-swapped key word; '
                    'ITER-1 when an iterator function computes a sibling with next/prior/gte_key_byte/lte_key_byte and the answer holds a value, the child it descends into is the one the answer names; '
                    'ENUM-1 each of the 96 per-node enumeration methods (begin/last/next/prior/gte_key_byte/lte_key_byte x 4 node classes x instantiations) is summarised by a scan descriptor (start, direction, bound, predicate, returned slot) and compared with the ART semantics table; '
                    'ITER-2 the scan drivers position with first / seek(fwd) resp. last / seek(rev), step with next resp. prior, stop at cmp(to) < 0 resp. > 0 (from inclusive, to exclusive), call the visitor once per entry and halt when it asks; '
@@ -128,6 +128,22 @@ def olc(which):
 
 def lock7a(cfg):
     return lock7.run(cfg, want=('a',))
+
+
+def simd_axis(ctx, tier):
+    """SIMD axis of the configuration matrix: each vectorised search is evaluated against the SAME specification in the AVX2 and
+    in the SSE4.2 configuration (thorough: with and without assertions); both meeting it is what makes them agree"""
+    from .report import RuleResult
+    res = RuleResult('SIMD', 'the vectorised node searches meet one specification in every SIMD configuration (SLOT-1 first null slot of I48, FIND-1 child lookup of I4 / I16, ORD-1 insert position), so results do not depend on -mavx2 vs SSE4.2')
+    names = [B, extract.flip(B, 'sse41')] + ([D, extract.flip(D, 'sse41')] if tier == 'thorough' else [])
+    ctx.ensure(names)
+    for n in names:
+        cfg = ctx.config(n)
+        for fn in (slot.slot1, find.find1, find.ord1):
+            r = fn(cfg)
+            r.instances = {'%s [%s]' % (k, n): v for k, v in r.instances.items()}
+            res.merge(r)
+    return res
 
 
 PROPERTIES['C03'] = {
@@ -148,13 +164,14 @@ PROPERTIES['C03'] = {
 PROPERTIES['C04'] = {
     'level': 'other',
     'configs': two,
-    'rules': [olc('LOCK-1'), olc('LOCK-5'), R(olcrules.lock6)],
-    'technique': 'static analysis: relational typestate dataflow (validate-before-dereference, obsolete-before-retire), who-may-construct rule for immediate-deleter owners',
+    'rules': [olc('LOCK-1'), olc('LOCK-5'), R(olcrules.lock6),
+              R(qsbr.q_free_paths), R(qsbr.q_rotation), R(qsbr.q_barriers), R(lambda cfg: qsbr.q_orphans(cfg, parts=('7', '9'))), R(qsbr.q_tagging), R(qsbr.q_last_out), R(qsbr.q_register_epoch)],
+    'technique': 'static analysis: relational typestate dataflow (validate-before-dereference, obsolete-before-retire), who-may-construct rule for immediate-deleter owners; the QSBR who-may-free / ordering / control-dependence rules of C05',
     'explanation': 'Structural safety conditions of "no use of reclaimed memory": LOCK-1 (no pointer obtained from a node is followed before the read section on that node is re-validated, so a stale pointer to a retired node is never dereferenced) '
                    'and LOCK-5 (every node an OLC operation hands to reclamation was unlocked-and-obsoleted by it first, so readers still holding a section on it restart; checked at restart returns too - a node retired and then abandoned by a restart is still linked), on every path of every OLC function, both key kinds; '
-                   'LOCK-6 (in the OLC instantiation an existing node is never wrapped in an owner with the immediate deleter outside the single-threaded teardown: ever-reachable nodes are freed only through QSBR).',
-    'decides': 'validate-before-dereference; obsolete-before-retire; deferred free only',
-    'does_not_decide': 'that QSBR delays the free long enough (C05); eventual reclamation as liveness',
+                   'LOCK-6 (in the OLC instantiation an existing node is never wrapped in an owner with the immediate deleter outside the single-threaded teardown: ever-reachable nodes are freed only through QSBR). The second half of the property - what was retired is not freed before every reader that might hold it has quiesced - rests on the QSBR safety generators, which are therefore checked here too: Q-1,2,3,4,5,7,9,10,11,12,14 (see C05).',
+    'decides': 'validate-before-dereference; obsolete-before-retire; deferred free only; the local generators of the two-epoch delay of QSBR',
+    'does_not_decide': 'the global epoch invariant of QSBR under all interleavings (as C05); eventual reclamation as liveness',
 }
 PROPERTIES['C09'] = {
     'level': 'other',
@@ -181,16 +198,19 @@ PROPERTIES['C14'] = {
 PROPERTIES['C16'] = {
     'level': 'other',
     'configs': two,
-    'rules': [R(lock7a), R(ptr.ptr4)],
+    'rules': [R(lock7a), R(ptr.ptr4), R(cfgdiff.assert_range)],
     'technique': 'static analysis: configuration differencing (statement-signature alignment of every function across single-axis flips of the build configuration with an effect classifier), API-surface differencing, typestate dataflow for read-section overwrite',
-    'multi_rules': [R(cfgdiff.run_matrix)],
+    'multi_rules': [R(cfgdiff.run_matrix), R(simd_axis)],
     'exhaustive': lambda tier: tier == 'thorough',
     'explanation': 'CD-1: for every single-axis flip of the build configuration (statistics on/off, assertions on/off, spin variant; quick: the baseline against its flips, thorough: all 16 configurations against theirs, exhaustively) the statement signatures of every function instantiated in both configurations are aligned in source order; every statement that exists on one side only must be part of a side-effect-free assertion, '
                    'touch only state that exists only in that configuration (set difference of the field / static / function tables), be a pure read, or be control flow listed in the exception table (one symbol + reason each) - a return, throw, shared-state write or mutating call that exists in one configuration only is a violation. CD-2: the public API of the index classes, encoder/decoder and pointer wrappers is identical across configurations except statistics getters. '
+                   'SIMD axis: the vectorised searches (SLOT-1 first null slot of the I48 pointer array - SSE4.2 packs vs AVX2 packs + cross-lane permutes; FIND-1 / ORD-1 child lookup and insert position of I4 / I16) are evaluated lane-wise against ONE specification in the AVX2 and in the SSE4.2 configuration; meeting it in both is what makes the builds agree. '
+                   'ASSERT-1 (assertion-enabled configurations): a debug-only counter compared with a narrower stored count cannot outgrow it (loop trip count capped by the node capacity <= 2^w - 1; a full I256 has 256 children and an 8-bit count). '
                    'LOCK-7a: in no function of the OLC code is a read section that may still be open overwritten by assignment. An overwritten open section loses its unit of the debug-build read_lock_count, which optimistic_lock::check_on_dealloc '
                    'asserts to be zero when the node is freed - the one internal assertion that legal usage (scan, then remove) could trip.',
     'decides': 'optional features (statistics, debug accounting) never write core state and core control flow never depends on them; assertion conditions are pure; balance of the debug read-section accounting on every path (typestate); the three rejection assertions exist',
-    'does_not_decide': 'equality of the AVX2 and SSE4.1 child searches (intrinsic semantics: translation validation); that every assertion is implied by the documented preconditions (general program verification)',
+    'does_not_decide': 'the aarch64 (NEON) and portable variants (not compiled on this platform); that every assertion is implied by the documented preconditions (general program verification) - only the accounting assertions LOCK-7a / PTR-4 are tied to code paths',
+    'trusted_base': ['clang 14 front end', 'usa extractor and rule engine', 'semantics table of the x86 intrinsics used (cmpeq_epi8/epi64, max_epu8, packs_epi32, permute4x64, movemask_epi8, testz): Intel intrinsics guide'],
 }
 
 PROPERTIES['C07'] = {
@@ -210,10 +230,11 @@ PROPERTIES['C07'] = {
 PROPERTIES['C13'] = {
     'level': 'proof',
     'configs': lambda tier: [B, D] if tier == 'quick' else [B, D, extract.flip(B, 'nostats'), extract.flip(D, 'nostats')],
-    'rules': [R(mutex.mx1), R(mutex.mx2)],
+    'rules': [R(mutex.mx1), R(mutex.mx2), R(mutex.mx3)],
     'technique': 'static analysis: forward dataflow (named owning guard alive at every access to the wrapped index), path-sensitive rule for the lock handed out with a hit',
     'explanation': 'MX-1: by forward dataflow over every member function of both mutex_db instantiations (scan member templates and statistics getters included), every access to the wrapped db happens while a NAMED std::lock_guard/std::unique_lock constructed on the one `mutex` member is alive and owning '
                    '(an unnamed temporary lock dies at the end of its statement and does not count; unlock() ends ownership). Hence every operation runs inside one critical section of one mutex: operations are totally ordered by lock acquisition and each behaves as the sequential db, i.e. linearizable. '
+                   'MX-3: no member function takes the mutex twice on one path (a second lock object, or a call of another locking member): one operation is one critical section, no check-then-act. '
                    'MX-2: path-sensitively on the has-value test of the lookup result, get_internal returns std::move(guard) (still owning) exactly on has-value paths and an empty lock exactly on no-value paths; no other member returns a lock type.',
     'decides': 'atomicity of every mutex_db operation; lock handed out exactly on a hit',
     'does_not_decide': 'sequential correctness of db (C01), correctness of std::mutex',
@@ -222,12 +243,12 @@ PROPERTIES['C13'] = {
 PROPERTIES['C17'] = {
     'level': 'proof',
     'configs': lambda tier: [B, D] if tier == 'quick' else [B, D, extract.flip(B, 'nostats'), extract.flip(D, 'nostats')],
-    'rules': [R(ptr.ptr1), R(ptr.ptr2), R(ptr.ptr3), R(ptr.ptr4)],
+    'rules': [R(ptr.ptr1), R(ptr.ptr2), R(ptr.ptr3), R(ptr.ptr4), R(ptr.ptr5)],
     'technique': 'static analysis: operator-shape comparison against a specification table, pairing/ordering dataflow (unregister-before / register-after every address change), dominance rule for the rejection assertions',
     'explanation': 'PTR-1: each operator of qsbr_ptr has, structurally, the shape of the same raw-pointer operator (or the listed delegation: postfix -> prefix, +/- -> +=/-=, n+p -> p+n), checked operator by operator against a specification table. '
                    'PTR-2 (assertion-enabled configurations): every member function that changes the wrapped address unregisters the old value before and registers the new value after on every path, transfers (std::exchange) move the registration, constructors register once, the destructor unregisters once, '
                    'the null filter forwards exactly the non-null pointers, and the per-thread registry inserts once and erases exactly ONE element (erase by iterator) - so after every member function the registry equals the multiset of live non-null wrapper values; NDEBUG configurations contain no tracking. '
-                   'PTR-3: qsbr_ptr_span stores data()/size() and reproduces them. PTR-4: quiescent / qsbr_pause / qsbr_resume assert registry emptiness before any state change.',
+                   'PTR-5: a move (constructor, assignment) leaves the source null on every path, the only exemption being a self-move guarded by an address test. PTR-3: qsbr_ptr_span stores data()/size() and reproduces them. PTR-4: quiescent / qsbr_pause / qsbr_resume assert registry emptiness before any state change.',
     'decides': 'operator homomorphism; exact liveness tracking; span mapping; the three rejection sites',
     'does_not_decide': 'std::unordered_multiset itself; that the assertion macro aborts',
     'trusted_base': ['clang 14 front end', 'usa extractor and rule engine', 'std::unordered_multiset', 'assert() aborts on failure'],
@@ -241,25 +262,25 @@ def stats_axis(tier):
 PROPERTIES['C05'] = {
     'level': 'other',
     'configs': stats_axis,
-    'rules': [R(qsbr.q_free_paths), R(qsbr.q_rotation), R(qsbr.q_barriers), R(lambda cfg: qsbr.q_orphans(cfg, parts=('9',))), R(qsbr.q_tagging)],
+    'rules': [R(qsbr.q_free_paths), R(qsbr.q_rotation), R(qsbr.q_barriers), R(lambda cfg: qsbr.q_orphans(cfg, parts=('7', '9'))), R(qsbr.q_tagging), R(qsbr.q_last_out), R(qsbr.q_register_epoch)],
     'technique': 'static analysis: call-graph who-may-call rules for the free sink, ordering/dominance and control-dependence rules on the rotation, path-sensitive boolean dataflow for barriers and once-only orphan handling, memory-order table',
     'explanation': 'Structural safety conditions of "QSBR never frees what a registered thread may still reference", each decided on every CFG path of qsbr.hpp/qsbr.cpp (stats on/off, debug/release): '
                    'Q-1 requests reach qsbr::deallocate only through ~deferred_requests, or at once only under single-thread mode; Q-2 only the previous-interval list (and, under single-thread mode, the current one; orphans likewise) is handed to the free sink; '
                    'Q-3 in the rotation the previous list is moved out before it receives the current list; Q-4 every rotation is control-dependent on an observed epoch change; '
                    'Q-5 the release barrier precedes every announcement (path-sensitive on the leave-previous-epoch flag), the acquire fence opens orphan handling, orphans are handled exactly once before every epoch-advancing write (at most once per unregister_thread call even across CAS retries), state-word RMWs are acq_rel and loads acquire; '
-                   'Q-9 a thread leaves the previous epoch at most once per epoch; Q-11 a request joins the current-interval list only on paths where last_seen_epoch was just compared equal to the freshly read global epoch; Q-10 the single-thread-mode decision is taken on the observed old state, never on the state produced by the thread\'s own update.',
-    'decides': 'Q-1,2,3,4,5,9,10,11: the local generators of the two-epoch delay',
+                   'Q-7 a quitting / pausing thread hands its previous-interval list to the previous orphan list and its current-interval list to the current one (crossing them ages requests one epoch too fast), every taken orphan list reaches exactly one sink; Q-9 a thread leaves the previous epoch at most once per epoch; Q-12 the epoch is advanced (change_epoch, or the advancing state update of a quitting thread) only when the observed count of threads still in the previous epoch is exactly 1; Q-11 a request joins the current-interval list only on paths where last_seen_epoch was just compared equal to the freshly read global epoch; Q-10 the single-thread-mode decision is taken on the observed old state, never on the state produced by the thread\'s own update.',
+    'decides': 'Q-1,2,3,4,5,7,9,10,11,12,14: the local generators of the two-epoch delay',
     'does_not_decide': 'the global invariant "the epoch advances only when every registered thread has quiesced" under all interleavings of register/unregister with an epoch change; bit-level arithmetic of inc_epoch_* helpers',
 }
 PROPERTIES['C06'] = {
     'level': 'other',
     'configs': stats_axis,
-    'rules': [R(lambda cfg: qsbr.q_rotation(cfg, parts=('3',))), R(qsbr.q_cas), R(lambda cfg: qsbr.q_orphans(cfg, parts=('7', '8')))],
+    'rules': [R(lambda cfg: qsbr.q_rotation(cfg, parts=('3',))), R(qsbr.q_cas), R(lambda cfg: qsbr.q_orphans(cfg, parts=('7', '8'))), R(qsbr.q_tail_link), R(qsbr.q_register_epoch)],
     'technique': 'static analysis: linearity (exactly-one-sink) dataflow on request containers, CAS-loop shape rule (published value recomputed from the expected value on every retry), type-level non-copyability check',
     'explanation': 'Exactly-once as linearity of the request containers: Q-3 no request list is overwritten while it may hold requests, the new requests are consumed into the current list; '
                    'Q-6 every CAS on the packed state word publishes helper(expected) recomputed after each failed attempt (no lost thread-count update), register increments and unregister decrements the count, paused follows (un)registration, '
                    'a push onto an orphan list links the node to the very head the CAS expects on every retry; Q-7 every orphan list taken by the epoch changer reaches exactly one sink (freed / published / appended on CAS failure), '
-                   'add_to_orphan_list returns only on empty input or CAS success, every exit of unregister_thread passes through orphan_pending_requests, which hands each private list to its own orphan list once; Q-8 requests are not copyable, deferred_requests neither copyable nor movable.',
+                   'add_to_orphan_list returns only on empty input or CAS success, every exit of unregister_thread passes through orphan_pending_requests, which hands each private list to its own orphan list once; Q-8 requests are not copyable, deferred_requests neither copyable nor movable; Q-13 a store into the next link of an orphan-list node links a private node being pushed or the tail (entered from a test that found the link null) - never a node that may have successors; Q-14 a registering thread that could only bump the thread count returns the NEW epoch (guarded by a test that a freshly read epoch differs), so the per-epoch thread bookkeeping never underflows.',
     'decides': 'no request lost or duplicated on any path of rotation, orphaning and orphan hand-over; thread-count bookkeeping',
     'does_not_decide': 'the bound "freed no later than the third quiescent round" and getter equalities at quiescent points (schedule-dependent)',
 }
@@ -267,12 +288,12 @@ PROPERTIES['C06'] = {
 PROPERTIES['C11'] = {
     'level': 'other',
     'configs': one,
-    'rules': [R(enc.enc1), R(lambda cfg: enc.encaff(cfg, sides=('encode',))), R(lambda cfg: enc.enc3(cfg, mode='order')), R(enc.enc4), R(enc.cmp_shape)],
+    'rules': [R(enc.enc1), R(lambda cfg: enc.encaff(cfg, sides=('encode',))), R(lambda cfg: enc.enc3(cfg, mode='order')), R(enc.enc4), R(enc.enc5), R(enc.cmp_shape)],
     'technique': 'static analysis: abstract interpretation of the encoder expression trees (affine x interval domain for integers, class-wise abstract walk with bit-parallel comparison for floats), width table, text-framing typestate, comparator shape',
     'explanation': 'Order preservation of the key encoder, decided from the source expressions: ENC-1/2 every fixed-size overload occupies exactly sizeof(T) bytes and multi-byte values are written big-endian (bswap of their own width, nothing else); '
                    'ENC-AFF each signed encode is EXACTLY v + 2^(w-1) on the whole domain - slope +1, no wrap, by affine x interval evaluation of the expression tree on both branches of the sign test - hence an order isomorphism onto the unsigned range (all four widths); '
                    'ENC-3 floating point by an abstract walk of encode_floating_point per class of the float domain (NaN of either sign, +inf, -inf, sign-clear finite, sign-set finite): NaN -> all ones, +inf -> max-1, -inf -> 0, finite -> bits|msb resp. ~bits, the bit transform compared as a bit-parallel function on complementary representatives (sound for the operator set & | ^ ~); '
-                   'ENC-4 text: view clamped to maxlen before any byte is read, trailing pad stripped down to the empty text, emission body + pad + 16-bit run length; CMP-2 compare() = memcmp over the common length, then length.',
+                   'ENC-5 buffer growth keeps the bytes encoded so far on every path (copied before the old block is released or replaced - a multi-component key keeps its leading components); ENC-4 text: view clamped to maxlen (test on the full-width length) before any byte is read, trailing pad stripped down to the empty text, emission body + pad + 16-bit run length; CMP-2 compare() = memcmp over the common length, then length.',
     'decides': 'integer order isomorphism (exact), big-endian layout, special-value codes and class mapping of floats, text framing, comparator shape',
     'does_not_decide': 'monotonicity of the IEEE-754 bit pattern within the finite classes (the classical lemma that sign-magnitude bit patterns order like the values is trusted), lexicographic order of tuples as a consequence of fixed widths',
     'trusted_base': ['clang 14 front end', 'usa extractor and rule engine', 'IEEE-754: within one sign, larger bit pattern <=> larger magnitude', '__builtin_bswapN reverses byte order'],
@@ -291,11 +312,11 @@ PROPERTIES['C12'] = {
 PROPERTIES['C15'] = {
     'level': 'other',
     'configs': one,
-    'rules': [R(enc.enc1), R(enc.enc4), R(lambda cfg: enc.enc3(cfg, mode='order'))],
+    'rules': [R(enc.enc1), R(enc.enc4), R(enc.enc5), R(lambda cfg: enc.enc3(cfg, mode='order'))],
     'technique': 'static analysis: width table of the overload set, ordering/typestate rule on text normalisation and framing, class-wise abstract walk of the float encoder (NaN unification)',
     'explanation': 'Structural generators of prefix freedom: ENC-1 every non-text component has a fixed width independent of its value (two keys of equal schema that differ in a fixed-width component differ at the same offset); '
                    'ENC-4 a text field is body.pad.runlength with the view cut to maxlen BEFORE padding is stripped (normalisation order), every trailing pad byte stripped (so texts equal after normalisation are byte-equal), reads bounded by maxlen, emission bounded by maxlen + 3; '
-                   'ENC-3 every NaN, whatever its sign or payload, is mapped to one code (NaN unification), -0 and +0 stay distinct (different classes).',
+                   'ENC-3 every NaN, whatever its sign or payload, is mapped to one code (NaN unification), -0 and +0 stay distinct (different classes); ENC-5 the bytes of the components encoded so far survive every growth of the buffer (otherwise tuples that differ only in a leading component encode byte-equal).',
     'decides': 'fixed widths, text normalisation order and framing, NaN unification',
     'does_not_decide': 'the combinatorial argument that body.0x00.len is prefix-free across different bodies (needs the no-interior-zero precondition)',
 }
